@@ -158,6 +158,40 @@ func squaresTableStatement(st *rangeproof.Statement) (*rangeproof.Statement, err
 	return &rangeproof.Statement{Sign: st.Sign, Factor: st.Factor, Bound: st.Bound, Splitter: squaresTable(40)}, nil
 }
 
+func init() {
+	// the holder recycles its statement object after the builder has been made (adjusts the bound
+	// for the next disclosure): the proof is for the statement the builder was created with
+	executors["rp-statement-recycled"] = func(o Op) string {
+		kp := execKey(o.str("key"))
+		m := unhx(o["m"])
+		cred := issueCred(kp, unhx(o["secret"]), []*big.Int{m, bi(6)})
+		st := &rangeproof.Statement{Sign: int(unhx(o["sign"]).Int64()), Factor: 1, Bound: unhx(o["bound"])}
+		if n := o.int("table"); n > 0 {
+			st.Splitter = squaresTable(int64(n - 1))
+		}
+		orig := &rangeproof.Statement{Sign: st.Sign, Factor: st.Factor, Bound: new(big.Int).Set(st.Bound)}
+		b, err := cred.CreateDisclosureProofBuilder([]int{2}, map[int][]*rangeproof.Statement{1: {st}}, false)
+		if err != nil {
+			return "err"
+		}
+		st.Bound.Sub(st.Bound, bi(int64(st.Sign)*unhx(o["shift"]).Int64())) // still true, another statement
+		ctx, nonce := bi(7), bi(9)
+		pl, err := gabi.ProofBuilderList{b}.BuildProofList(ctx, nonce, false)
+		if err != nil {
+			return "err"
+		}
+		proof := pl[0].(*gabi.ProofD)
+		v := executors["verifyD"](Op{"proof": any(map[string]any(proofDTree(proof))), "key": o["key"], "context": hx(ctx), "nonce": hx(nonce), "issig": false})
+		if v != "accept" {
+			return "built-but-" + v
+		}
+		if !proof.RangeProofs[1][0].Proves(orig) {
+			return "built-for-another-statement"
+		}
+		return "ok"
+	}
+}
+
 var tables = map[int64]*rangeproof.SquaresTable{}
 
 func squaresTable(limit int64) *rangeproof.SquaresTable {
@@ -423,6 +457,49 @@ func genC12(g *Rng, tier string, emit func(Op)) {
 				"vs": Is([]*big.Int{bi(1), bi(1), bi(1), bi(1)}), "v5": I(bi(1)), "l_d": 8, "sign": 1, "a": uint64(1), "k": I(falseBound)}}}
 			emit(verifyDOp(kp.id, tf, ctx, nonce, false, "rp-forged-nonunit-commitments", "reject").with("fkey", "C12/nonunit-commitments"))
 		}
+		// the same with ONE commitment that is no unit (0 or N) among honest ones, at every position:
+		// the relation that links the squares to the attribute contains each C_i to a positive
+		// power and collapses to 0 as well
+		for _, cval := range []*big.Int{bi(0), new(big.Int).Set(pk.N)} {
+			for j := 0; j < 4; j++ {
+				b, err := cred.CreateDisclosureProofBuilder([]int{3}, nil, false)
+				if err != nil {
+					panic(err)
+				}
+				contribs, err := b.Commit(map[string]*big.Int{"secretkey": g.bits(592)})
+				if err != nil {
+					panic(err)
+				}
+				const ld = 128
+				cs, ds, vs, dr, vr := make([]*big.Int, 4), make([]*big.Int, 4), make([]*big.Int, 4), make([]*big.Int, 4), make([]*big.Int, 4)
+				rpc := []*big.Int{bi(0)}
+				for i := 0; i < 4; i++ {
+					ds[i], vs[i] = bi(int64(i+1)), g.bits(int(pk.Params.Lm))
+					dr[i], vr[i] = g.bits(ld+int(pk.Params.Lh+pk.Params.Lstatzk)), g.bits(int(pk.Params.Lm+pk.Params.Lh+pk.Params.Lstatzk))
+					cs[i] = new(big.Int).Exp(pk.R[1], ds[i], pk.N)
+					cs[i].Mul(cs[i], new(big.Int).Exp(pk.S, vs[i], pk.N)).Mod(cs[i], pk.N)
+					if i == j {
+						cs[i] = new(big.Int).Set(cval)
+						rpc = append(rpc, bi(0))
+						continue
+					}
+					c := new(big.Int).Exp(pk.R[1], dr[i], pk.N)
+					c.Mul(c, new(big.Int).Exp(pk.S, vr[i], pk.N)).Mod(c, pk.N)
+					rpc = append(rpc, c)
+				}
+				c := gabi.VerifCreateChallenge(ctx, nonce, append(contribs, rpc...), false)
+				fp := b.CreateProof(c).(*gabi.ProofD)
+				dres, vres := make([]*big.Int, 4), make([]*big.Int, 4)
+				for i := 0; i < 4; i++ {
+					dres[i] = new(big.Int).Add(new(big.Int).Mul(c, ds[i]), dr[i])
+					vres[i] = new(big.Int).Add(new(big.Int).Mul(c, vs[i]), vr[i])
+				}
+				tf := proofDTree(fp)
+				falseBound := new(big.Int).Add(m1, bi(1000000000))
+				tf["rangeproofs"] = T{"1": []any{T{"Cs": Is(cs), "ds": Is(dres), "vs": Is(vres), "v5": I(bi(1)), "l_d": ld, "sign": 1, "a": uint64(1), "k": I(falseBound)}}}
+				emit(verifyDOp(kp.id, tf, ctx, nonce, false, fmt.Sprintf("rp-forged-one-nonunit-commitment-%d", j), "reject").with("fkey", "C12/nonunit-commitments"))
+			}
+		}
 		// a junk range proof attached to the highest hidden index of a proof that has a gap below it
 		// (a disclosed attribute of value 0 is dropped: R^0 = 1): every carried range proof must
 		// still be checked and hashed
@@ -599,6 +676,13 @@ func genC13(g *Rng, tier string, emit func(Op)) {
 						emit(o)
 					}
 				}
+			}
+		}
+		for _, table := range []int{0, tableLimit + 1} {
+			for _, sign := range []int64{1, -1} {
+				mm := g.bits(60)
+				emit(Op{"op": "rp-statement-recycled", "class": "statement-recycled-after-builder", "label": "ok", "nomodel": true, "fkey": "C13/statement-recycled",
+					"key": kp.id, "secret": hx(secret), "m": hx(mm), "sign": hxi(sign), "bound": hx(new(big.Int).Sub(mm, bi(20*sign))), "shift": hxi(70), "table": table})
 			}
 		}
 		// tables of other sizes (the documented range depends on the table alone): the largest
